@@ -62,15 +62,22 @@ def run_compose(cfg: CCfg, c: Ctx) -> Any:
         feats += [("kw", l) for l in labels if deps[l]]
     if cfg.activation:
         feats += [("act", labels[j], labels[i]) for i in range(N) for j in range(i)]
-    feats += [("alias", "id"), ("alias", "tag")]
+    feats += [("alias", "id"), ("alias", "tag"), ("alias", "id-substring-tags"), ("alias", "tag-substring-tags")]
+    if cfg.activation and cfg.indexed:
+        feats += [("actidx", labels[j], labels[i]) for i in range(N) for j in range(i)]
     feat = feats[c.choose(len(feats), "feature")]
     idx_use: Optional[Tuple[str, str]] = (feat[1], feat[2]) if feat and feat[0] == "idx" else None
     kw_use = {l: bool(feat and feat[0] == "kw" and feat[1] == l) for l in labels}
-    act: Dict[str, str] = {feat[2]: feat[1]} if feat and feat[0] == "act" else {}
-    form = feat[1] if feat and feat[0] == "alias" else "ref"
+    act: Dict[str, str] = {feat[2]: feat[1]} if feat and feat[0] in ("act", "actidx") else {}
+    act_indexed = bool(feat and feat[0] == "actidx")  # twz_active=flag[0]
+    form = feat[1].split("-")[0] if feat and feat[0] == "alias" else "ref"
+    substring_tags = bool(feat and feat[0] == "alias" and feat[1].endswith("substring-tags"))
     alldeps = {l: list(dict.fromkeys(deps[l] + ([act[l]] if l in act else []))) for l in labels}
     desc, anc = closure(labels, alldeps)
-    tags = {l: ("t%d" % i, "g") if i < 2 else ("t%d" % i,) for i, l in enumerate(labels)}
+    tags: Dict[str, Any] = {l: ("t%d" % i, "g") if i < 2 else ("t%d" % i,) for i, l in enumerate(labels)}
+    if substring_tags:
+        # single-string tags; the last node's tag contains the id of the first node and the tag of the second one
+        tags = {l: ("t%d" % i if i < N - 1 else "x%s_t1y" % labels[0]) for i, l in enumerate(labels)}
     setup0 = bool(cfg.setup and src[labels[0]] == "const" and labels[0] not in act and c.choose(2, "setup"))
     cnt = Counter()
     flavour = cfg.flavours[c.choose(len(cfg.flavours), "flavour")] if len(cfg.flavours) > 1 else cfg.flavours
@@ -111,7 +118,7 @@ def run_compose(cfg: CCfg, c: Ctx) -> Any:
         for l in labels:
             args, kw = call_shape(l, x, y, r)
             if l in act:
-                kw["twz_active"] = r[act[l]]
+                kw["twz_active"] = r[act[l]][0] if act_indexed else r[act[l]]
             r[l] = xns[l](*args, **kw)
         return tuple(r[l] for l in labels)
 
@@ -138,6 +145,8 @@ def run_compose(cfg: CCfg, c: Ctx) -> Any:
             active = True
             if l in act:
                 f = val[act[l]]
+                if act_indexed and f is not None:
+                    f = f[0]
                 active = bool(f) if f is not None else False
             if not active:
                 val[l] = None
@@ -160,7 +169,7 @@ def run_compose(cfg: CCfg, c: Ctx) -> Any:
             return "pipe>!>x"
         if m == "@g":
             return "g"
-        return xns[m] if form == "ref" else (m if form == "id" else "t%d" % labels.index(m))
+        return xns[m] if form == "ref" else (m if form == "id" else (tags[m] if substring_tags else "t%d" % labels.index(m)))
 
     # ---- spec: errors
     expect_error = False
@@ -170,7 +179,7 @@ def run_compose(cfg: CCfg, c: Ctx) -> Any:
     else:
         for m in inputs:
             if m == "@g":
-                expect_error = True  # ambiguous alias: the tag is carried by two nodes
+                expect_error = True  # ambiguous alias: the tag is carried by two nodes (or, with single-string tags, by none)
             else:
                 in_nodes.append(m)
     node_inputs = [m for m in in_nodes if not m.startswith("@")]
@@ -229,8 +238,7 @@ def run_compose(cfg: CCfg, c: Ctx) -> Any:
             raise
         c.check(veq(got, want), "composed DAG result differs from the original evaluated with the substituted input values", prop="C19",
                 data={**data, "got": got, "want": want})
-        want_run = {l for l in needed if val[l] is not None or (l in act)}
-        want_run = {l for l in needed if l not in subst and _ran(l, val, act)}
+        want_run = {l for l in needed if l not in subst and val[l] is not None}
         if setup0:
             want_run.discard(labels[0])  # the setup result is taken from the original (it ran in `before`)
         c.check(cnt.entered() == want_run and all(v == 1 for v in cnt.n.values()),
